@@ -108,6 +108,14 @@ func C13(c *Ctx) {
 	c13ConstIndex(c, g)
 	c13SubtractedSubscripts(c, g)
 	c13FailedAssertions(c, g)
+	// the class name that reaches rangeTable (which panics on a name it does not know, in the builder under
+	// -optimize-basic-latin and in the package initialisation of the generated parser) is the name the front-end
+	// validated on the source text: the class-text parser collects it in a buffer that holds nothing else
+	r.Rule("C13-p", "the Unicode class name CharClassMatcher.parse stores is the name the front-end validated: the scratch buffer it is collected in is empty when collection starts (C04-d under this property; builder.rangeTable panics on an unknown name, outside the recover of the front-end)")
+	if cp := c.classParse(); cp != nil && cp.readLoop != nil {
+		nobj, sbad := scratchBuffersClean(cp.iter)
+		r.Check(len(sbad) == 0, "C13-p", "G.ast.CharClassMatcher.parse:class-name-read-into-clean-buffer", "", g.Where(cp.readLoop.Pos()), fmt.Sprintf("%d scratch buffers over %d iteration paths", nobj, len(cp.iter)), strings.Join(uniq(sbad), "; ")+": BasicLatinLookup hands the name to rangeTable, which panics with a Go trace on `invalid Unicode class`")
+	}
 	c13Exit(c, g)
 	if c.Thorough() {
 		c13CrossRef(c, g)
@@ -1486,7 +1494,18 @@ func c13CounterLoops(c *Ctx, g *load.G) {
 				usesNext := false
 				ast.Inspect(f.Body, func(m ast.Node) bool {
 					if ix, ok := m.(*ast.IndexExpr); ok && nospace(ix.Index) == iv+"+1" {
-						usesNext = true
+						// a look-ahead at the next element under its own bound test is not a pair access
+						guarded := false
+						for _, fct := range factsAt(f.Body, ix.Pos()) {
+							for _, cj := range splitTop(fct, "&&") {
+								if cj == iv+"+1<len("+nospace(ix.X)+")" || cj == iv+"<len("+nospace(ix.X)+")-1" {
+									guarded = true
+								}
+							}
+						}
+						if !guarded {
+							usesNext = true
+						}
 					}
 					return true
 				})
@@ -1796,6 +1815,9 @@ func c13ConstIndex(c *Ctx, g *load.G) {
 					n++
 					construct := "G." + suffix + "." + load.RecvName(fd) + "." + fd.Name.Name + ":index " + x + "[" + sub + "]"
 					proved := nonEmptyProvedAt(g, pkg, fd, ix, x, 0)
+					if proved == "" && strings.HasSuffix(x, ".argsStack") && sub == "len("+x+")-1" && withinRuleScope(pkg, fd) {
+						proved = "the label-scope stack is non-empty wherever code is generated for a rule: writeRuleCode pushes a scope before it visits the rule's expression and pops it afterwards, pushes and pops are paired in between (C02-d), and this function is reached only from inside that bracket"
+					}
 					r.Check(proved != "", "C13-j", construct, "", g.Where(ix.Pos()), proved, "no length test of "+x+" dominates the subscript: an empty "+x+" (an empty code block, class or rule list) panics with index out of range")
 					return true
 				})
@@ -2150,4 +2172,48 @@ func splitNonEmpty(s, sep string) []string {
 		return nil
 	}
 	return strings.Split(s, sep)
+}
+
+// withinRuleScope: fd (a method of the builder) is reached only from inside a push/pop bracket of the label-scope
+// stack: every chain of callers inside the package ends in a call made between a pushArgsSet() and a popArgsSet() of
+// the calling function (writeRuleCode, or the helper it delegates the bracket to).
+func withinRuleScope(pkg *packages.Package, fd *ast.FuncDecl) bool {
+	fl := newFlow(pkg, nil)
+	seen := map[*ast.FuncDecl]bool{}
+	var up func(f *ast.FuncDecl) bool
+	up = func(f *ast.FuncDecl) bool {
+		if seen[f] {
+			return true
+		}
+		seen[f] = true
+		sites := fl.callSites(f)
+		if len(sites) == 0 {
+			return false // an entry point of its own (or called through a value): nothing is known
+		}
+		for _, cs := range sites {
+			if cs.In == nil {
+				return false
+			}
+			// the caller brackets this call: a push before it and a pop after it
+			var push, pop token.Pos
+			for _, ce := range callsIn(cs.In.Body) {
+				switch callSel(ce) {
+				case "pushArgsSet":
+					if push == token.NoPos {
+						push = ce.Pos()
+					}
+				case "popArgsSet":
+					pop = ce.Pos()
+				}
+			}
+			if push != token.NoPos && pop != token.NoPos && push < cs.Call.Pos() && cs.Call.Pos() < pop {
+				continue
+			}
+			if !up(cs.In) {
+				return false
+			}
+		}
+		return true
+	}
+	return fd.Recv != nil && up(fd)
 }
